@@ -684,7 +684,7 @@ def main(argv):
     if inconclusive:
         # the verifier could not conclude (drift / front end / resource).  A concrete failing input on
         # the real code is still a violation; otherwise the run stays inconclusive.
-        hard = [s_ for s_ in inconclusive if ': drift:' in s_ or ': frontend:' in s_]
+        hard = [s_ for s_ in inconclusive if ': drift:' in s_ or ': frontend:' in s_ or 'resource' in s_]
         if hard:
             rs = run_replay_search(pid, None, seed, budget)
             if rs and rs.get('found'):
